@@ -115,7 +115,9 @@ CHECKS["C03"] = {
     "level_note": _WORLD_NOTE + "The settlement notification is delivered by the harness (Recv blocks until then) and the step completes when the watcher goroutine has exited.",
     "assumptions": ["Lightning backend modelled by harness/lnmodel", "interleaving granularity = one storage or Lightning call"],
     "units": [
-        rapid("seq", "^TestSeq$", 400, 8000, qs=8, ts=16),
+        rapid("seq", "^TestSeq$", 400, 8000, qs=6, ts=16),
+        rapid("sched", "^TestSched$", 400, 12000, qs=6, ts=16),
+        plain("schedenum", "^TestSchedEnum$", qs=16, ts=16, ttimeout=3300),
     ],
 }
 
